@@ -19,68 +19,13 @@
 (* accesses; the abstract value never changes, so every access must show    *)
 (* the same value whatever was materialised before.                         *)
 (***************************************************************************)
-EXTENDS Integers, Sequences, FiniteSets, TLC, Json, RatMat, MatLeaves
+EXTENDS Integers, Sequences, FiniteSets, TLC, Json, MatSemantics
 
 CONSTANTS Mode,        \* "programs" | "access"
           MaxOps,
           Partners,    \* leaves offered as product partners
           StartLeaves, \* leaves programs start from
           Attrs        \* attribute names for access orders
-
-LeafNames == DOMAIN Leaves
-Lf(n) == Leaves[n]
-
-Tri(m, lower) == [i \in 1..NRows(m) |-> [j \in 1..NCols(m) |->
-                     IF (lower /\ j <= i) \/ (~lower /\ j >= i) THEN m[i][j] ELSE R(0)]]
-
-\* documented meaning of every class
-RECURSIVE LeafValue(_)
-LeafValue(n) ==
-  LET l == Lf(n) c == l.cls IN
-  CASE c = "IdentityMatrix" -> MIdentity(l.size)
-    [] c \in {"ScaledIdentityMatrix", "PositiveScaledIdentityMatrix"} -> MScale(MIdentity(l.size), l.scalar)
-    [] c \in {"DiagonalMatrix", "PositiveDiagonalMatrix"} -> MDiag(l.p1[1])
-    [] c \in {"DenseSquareMatrix", "DenseSymmetricMatrix", "OrthogonalMatrix",
-              "DenseDefiniteMatrix", "DensePositiveDefiniteMatrix", "DenseRectangularMatrix"} -> l.p1
-    \* triangular classes use only the named triangle of the array they are given
-    [] c = "TriangularMatrix" -> Tri(l.p1, l.lower)
-    [] c = "InverseTriangularMatrix" -> MInverse(Tri(l.p1, l.lower))
-    [] c \in {"TriangularFactoredDefiniteMatrix", "TriangularFactoredPositiveDefiniteMatrix"} ->
-         MScale(MMul(Tri(l.p1, l.lower), MTranspose(Tri(l.p1, l.lower))), R(l.sign))
-    [] c = "DensePositiveDefiniteProductMatrix" -> MMul(l.p1, MMul(l.p2, MTranspose(l.p1)))
-    [] c = "ScaledOrthogonalMatrix" -> MScale(l.p1, l.scalar)
-    [] c \in {"EigendecomposedSymmetricMatrix", "EigendecomposedPositiveDefiniteMatrix"} ->
-         MMul(l.p1, MMul(MDiag(l.p2[1]), MTranspose(l.p1)))
-    [] c \in {"SquareBlockDiagonalMatrix", "SymmetricBlockDiagonalMatrix", "PositiveDefiniteBlockDiagonalMatrix"} ->
-         MBlockDiag(LeafValue(l.subs[1]), LeafValue(l.subs[2]))
-    [] c = "BlockRowMatrix" ->
-         LET a == LeafValue(l.subs[1]) b == LeafValue(l.subs[2])
-         IN [i \in 1..NRows(a) |-> a[i] \o b[i]]
-    [] c = "BlockColumnMatrix" -> LeafValue(l.subs[1]) \o LeafValue(l.subs[2])
-    [] c \in {"SquareLowRankUpdateMatrix", "SymmetricLowRankUpdateMatrix", "PositiveDefiniteLowRankUpdateMatrix"} ->
-         \* square + sign * left @ inner @ right   (subs: left factor, right factor (or left^T), square, inner)
-         LET u == LeafValue(l.subs[1])
-             v == IF c = "SquareLowRankUpdateMatrix" THEN LeafValue(l.subs[2]) ELSE MTranspose(u)
-             a == LeafValue(l.subs[3])
-             k == LeafValue(l.subs[4])
-         IN MAdd(a, MScale(MMul(u, MMul(k, v)), R(l.sign)))
-
-\* what the class hierarchy promises about an object of class c
-IsInvertibleClass(c) == c \notin {"DenseRectangularMatrix", "BlockRowMatrix", "BlockColumnMatrix"}
-IsSymmetricClass(c) ==
-  c \in {"IdentityMatrix", "ScaledIdentityMatrix", "PositiveScaledIdentityMatrix", "DiagonalMatrix",
-         "PositiveDiagonalMatrix", "TriangularFactoredDefiniteMatrix", "TriangularFactoredPositiveDefiniteMatrix",
-         "DenseDefiniteMatrix", "DensePositiveDefiniteMatrix", "DensePositiveDefiniteProductMatrix",
-         "DenseSymmetricMatrix", "EigendecomposedSymmetricMatrix", "EigendecomposedPositiveDefiniteMatrix",
-         "SymmetricBlockDiagonalMatrix", "PositiveDefiniteBlockDiagonalMatrix", "SymmetricLowRankUpdateMatrix",
-         "PositiveDefiniteLowRankUpdateMatrix"}
-IsPosDefClass(c) ==
-  c \in {"IdentityMatrix", "PositiveScaledIdentityMatrix", "PositiveDiagonalMatrix",
-         "TriangularFactoredPositiveDefiniteMatrix", "DensePositiveDefiniteMatrix",
-         "DensePositiveDefiniteProductMatrix", "EigendecomposedPositiveDefiniteMatrix",
-         "PositiveDefiniteBlockDiagonalMatrix", "PositiveDefiniteLowRankUpdateMatrix"}
-
-Facts(n) == [inv |-> IsInvertibleClass(Lf(n).cls), sym |-> IsSymmetricClass(Lf(n).cls), pd |-> IsPosDefClass(Lf(n).cls)]
 
 Two == R(2)
 MinusHalf == <<-1, 2>>
